@@ -396,7 +396,8 @@ func (p *pep440Extension) parseLocal(input string) (string, error) {
 	if strings.Contains(str, "_") {
 		str = strings.ReplaceAll(str, "_", ".")
 	}
-	p.ext.local = str
+	// Local segments compare case-insensitively; lower case is canonical.
+	p.ext.local = strings.ToLower(str)
 	return "", nil
 }
 
@@ -436,20 +437,18 @@ func (p *pep440Extension) makeExt() {
 
 var zeroPEP440 pep440
 
-// The order in which various attachments compare.
-// For instance, 1.0.post > 1.0 > 1.0b > 1.0a.
+// The order in which the prerelease segments compare. A version with
+// only a dev segment (no pre, no post) sorts before every prerelease of the
+// same release; a version with no prerelease segment sorts after them.
 const (
 	pep440Dev int = iota
 	pep440Alpha
 	pep440Beta
 	pep440Prerelease
 	pep440Empty
-	pep440Local
-	pep440Post
 )
 
-// rank returns the basic ordering according what attachments are
-// present in the extension.
+// rank returns the ordering of the prerelease segment of the extension.
 func (p *pep440) rank() int {
 	// p is never nil; called only from compare.
 	switch {
@@ -459,12 +458,8 @@ func (p *pep440) rank() int {
 		return pep440Beta
 	case p.pre == "rc":
 		return pep440Prerelease
-	case p.postPresent:
-		return pep440Post
-	case p.devPresent: // Check this here as it can appear with a pre or post.
+	case p.devPresent && !p.postPresent:
 		return pep440Dev
-	case p.local != "":
-		return pep440Local
 	}
 	return pep440Empty
 }
@@ -532,49 +527,45 @@ func (p *pep440Extension) compare(e extension) int {
 		return 0
 	}
 
-	// We have the same numbers. We now compare attachments. Their order is:
-	//	devN aN bN rcN <empty> postN
-	// and within each item, ordered by N. Also, a dev can appear along with
-	// any other. If one version has a higher rank than the other, that determines
-	// their ordering.
+	// We have the same numbers. We now compare attachments, in the order
+	// and with the defaults PEP 440 defines (see packaging's _cmpkey):
+	//	pre   devN (alone) < aN < bN < rcN < no prerelease
+	//	post  absent < postN
+	//	dev   devN < absent
+	//	local absent < any local, compared segment by segment.
 	pRank := pExt.rank()
 	qRank := qExt.rank()
 	if pRank != qRank {
 		return sgn(pRank, qRank)
 	}
-
-	// Same rank, so now we must look at the contents of the extension.
-	switch pRank {
-	case pep440Alpha, pep440Beta, pep440Prerelease:
-		if s := sgn(pExt.preNum, qExt.preNum); s != 0 {
-			return s
-		}
-		fallthrough
-	case pep440Local:
-		if s := pep44CompareLocal(pExt.local, qExt.local); s != 0 {
-			return s
-		}
-		fallthrough
-	case pep440Post:
-		if s := sgn(pExt.postNum, qExt.postNum); s != 0 {
-			return s
-		}
+	if s := sgn(pExt.preNum, qExt.preNum); s != 0 {
+		return s
 	}
-
-	// Dev can attach to anything (although we've never seen one on a post).
-	if pExt.devPresent || qExt.devPresent {
-		if pExt.devPresent != qExt.devPresent {
-			if pExt.devPresent {
-				return -1 // Dev is before pre, empty, or post.
-			}
-			return 1
+	if pExt.postPresent != qExt.postPresent {
+		if qExt.postPresent {
+			return -1
 		}
-		if s := sgn(pExt.devNum, qExt.devNum); s != 0 {
-			return s
-		}
+		return 1
 	}
-
-	return 0
+	if s := sgn(pExt.postNum, qExt.postNum); s != 0 {
+		return s
+	}
+	if pExt.devPresent != qExt.devPresent {
+		if pExt.devPresent {
+			return -1 // Dev is before pre, empty, or post.
+		}
+		return 1
+	}
+	if s := sgn(pExt.devNum, qExt.devNum); s != 0 {
+		return s
+	}
+	if (pExt.local == "") != (qExt.local == "") {
+		if pExt.local == "" {
+			return -1
+		}
+		return 1
+	}
+	return pep44CompareLocal(pExt.local, qExt.local)
 }
 
 // pep440CompareLocal compares the local strings elementwise.
